@@ -8,7 +8,9 @@ RULE = (
     "box (all task placements x optional decisions x selections x dynamic spans) when it has <= 1500 elements, otherwise "
     "neighbours of admitted schedules plus construction-based random candidates. Every candidate the reference judges VALID "
     "under the strictest reading is pinned completely (start/end/duration/scheduled/selection flags/dynamic spans) and must be "
-    "sat; when a VALID candidate exists the public solve() must not return False. Non-trivial = VALID candidate of a problem "
+    "sat; when a VALID candidate exists the public solve() must not return False. Strata besides the mixed profiles: selections over common "
+    "workers, shared workload windows, optional tasks with delays under periodic / sorting constraints, cumulative workers with work amounts (lane "
+    "choices searched by the reference), variable-duration tasks under interruptions, task groups as precedence operands. Non-trivial = VALID candidate of a problem "
     "that has a user constraint or shared resource and that also has INVALID candidates; distinct by SHA-1 of (spec, candidate)."
 )
 TECHNIQUE = "reference-side candidate schedules (exhaustive candidate box, neighbours, constructed random ones); every reference-VALID one pinned and submitted to the encoder (completeness differential)"
